@@ -93,6 +93,13 @@ func (r *run) script(timeout int, match func() []byte, other func() []byte) []ar
 	return out
 }
 
+func clip(s string) string {
+	if len(s) > 300 {
+		return s[:300] + "…"
+	}
+	return s
+}
+
 func scriptText(s []arrival) string {
 	var parts []string
 	for _, a := range s {
@@ -210,6 +217,41 @@ func discoverBounded(addr string, timeout int) ([]*knxnet.SearchRes, error, bool
 		hung++
 		return nil, nil, false
 	}
+}
+
+// expectDescribe / expectDiscover: what the property's statement demands for a script, using the
+// library's decoder only to tell which datagrams are well-formed responses
+func expectDescribe(timeout int, s []arrival) string {
+	for _, a := range s {
+		if a.foreign || a.at >= timeout {
+			continue
+		}
+		var svc knxnet.Service
+		if _, err := knxnet.Unpack(a.data, &svc); err != nil {
+			continue
+		}
+		if d, ok := svc.(*knxnet.DescriptionRes); ok {
+			return ktext.Join(ktext.Service(d))
+		}
+	}
+	return "none"
+}
+
+func expectDiscover(timeout int, s []arrival) string {
+	var parts []string
+	for _, a := range s {
+		if a.foreign || a.at >= timeout {
+			continue
+		}
+		var svc knxnet.Service
+		if _, err := knxnet.Unpack(a.data, &svc); err != nil {
+			continue
+		}
+		if d, ok := svc.(*knxnet.SearchRes); ok {
+			parts = append(parts, ktext.Join(ktext.Service(d)))
+		}
+	}
+	return strings.Join(append(parts, "end"), " ; ")
 }
 
 // ---- DescribeTunnel ----
@@ -360,6 +402,9 @@ func (r *run) c20describe(budget int) {
 			}
 		}
 		r.emit(op, best)
+		if want := expectDescribe(timeout, s); want != best && hung < 3 {
+			r.violation("describe-wrong-result", op, "returned "+clip(best)+", the first description response that arrived before the timeout is "+clip(want))
+		}
 		r.classes[fmt.Sprintf("describe-timeout-%dms", timeout)]++
 		if best == "none" {
 			r.classes["describe-none"]++
@@ -551,6 +596,9 @@ func (r *run) c20discover(budget int) {
 			port++
 		}
 		r.emit(op, best)
+		if want := expectDiscover(timeout, s); want != best && hung < 3 {
+			r.violation("discover-wrong-result", op, "returned "+clip(best)+", the search responses that arrived before the timeout are "+clip(want))
+		}
 		r.classes[fmt.Sprintf("discover-timeout-%dms", timeout)]++
 		r.classes[fmt.Sprintf("discover-responders-%d", nresp)]++
 	}
